@@ -50,10 +50,22 @@ theorem slice_arg_given (t : SliceIn α) (i : Nat) (d : DimDesc α) (hd : t.dims
 theorem slice_arg_unspecified (t : SliceIn α) (i : Nat) (d : DimDesc α) (hd : t.dims[i]? = some d)
     (hs : t.starts[i]? = none) (he : t.ends[i]? = none) (hfill : t.needFill = true) (fs fe : α)
     (h1 : fillStart d = .ok fs) (h2 : fillEnd d ((t.shape[i]?).getD 0) = .ok fe) :
-    t.arg i = .ok (d, fs, fe, (match t.units[i]? with | some u => u | none => d.unitOrNone), .inclusive) := by
+    t.arg i = .ok (d, fs, fe,
+      (if (t.units[i]?).isSome && (match d with | .sampled .. => true | .range .. => true | _ => false) then d.unitOrNone
+       else match t.units[i]? with | some u => u | none => d.unitOrNone), .inclusive) := by
   unfold SliceIn.arg
-  simp [hd, hs, he, hfill, h1, h2]
-  rfl
+  simp only [hd, hs, he, hfill, h1, h2, if_true, Option.isNone_none, Option.isSome_none, Bool.true_and, bne_self_eq_false, Bool.false_and]
+  cases hu : t.units[i]? <;> cases d <;> simp
+
+/-- … in the unit of the dimension, whatever unit the caller gave for it (D56: the filled-in bounds of a sampled / range dimension
+    were rescaled with the given unit) -/
+theorem slice_arg_unspecified_own_unit (t : SliceIn α) (i : Nat) (d : DimDesc α) (hd : t.dims[i]? = some d)
+    (hs : t.starts[i]? = none) (he : t.ends[i]? = none) (hfill : t.needFill = true) (fs fe : α)
+    (h1 : fillStart d = .ok fs) (h2 : fillEnd d ((t.shape[i]?).getD 0) = .ok fe)
+    (hk : (match d with | .sampled .. => true | .range .. => true | _ => false) = true) :
+    t.arg i = .ok (d, fs, fe, d.unitOrNone, .inclusive) := by
+  rw [slice_arg_unspecified t i d hd hs he hfill fs fe h1 h2]
+  cases hu : t.units[i]? <;> simp [hk]
 
 /-- … and such a dimension is returned in full (no unit conversion on its own unit: `scale = none`) -/
 theorem slice_unspecified_full (d : DimDesc α) (hwf : DimWF d) (n : Nat) (hn : 1 ≤ n) (hcov : (axisOf d).valid (n - 1))
